@@ -227,10 +227,42 @@ func (r *Run) isJoinLocalSession(fn *Func, x ast.Expr) bool {
 		switch funcName(f) {
 		case "models.(*SessionStore).GetByGlobalID", "models.NewSession":
 		default:
-			return false
+			if !r.returnsNewSession(f) {
+				return false
+			}
 		}
 	}
 	return true
+}
+
+// returnsNewSession: an unexported repository helper whose first result is, on every return, nil or
+// a session freshly made by models.NewSession.
+func (r *Run) returnsNewSession(f *types.Func) bool {
+	def := r.P.Funcs[f]
+	if def == nil || f.Exported() {
+		return false
+	}
+	ok, n := true, 0
+	ast.Inspect(def.Body, func(nd ast.Node) bool {
+		if _, isLit := nd.(*ast.FuncLit); isLit {
+			return false
+		}
+		rs, isRet := nd.(*ast.ReturnStmt)
+		if !isRet || len(rs.Results) == 0 {
+			return true
+		}
+		n++
+		x := rs.Results[0]
+		if isNilIdent(def.Info(), x) {
+			return true
+		}
+		c := r.P.canon(def, x, 0)
+		if !strings.HasPrefix(c, "call:models.NewSession(") {
+			ok = false
+		}
+		return true
+	})
+	return ok && n > 0
 }
 
 // sessionCanonOK: expression denotes the connection's own session (field, getter, or the join local).
@@ -720,6 +752,15 @@ func ruleOwnerGuard(r *Run) {
 				verb, restricted := ownerRestricted[funcName(me.Callee)]
 				if !restricted || r.isConstruction(path, me) {
 					continue
+				}
+				inLeave := false
+				for _, lf := range m.Leave {
+					if path.Events[me.Idx].Fn.root().origOrSelf() == lf {
+						inLeave = true
+					}
+				}
+				if inLeave {
+					continue // the leave function removes the leaver's own entities (rules E1, D2)
 				}
 				n++
 				ev := path.Events[me.Idx]
